@@ -131,12 +131,15 @@ def run(ctx):
     wspecs, wtrees = wc.specs(ctx, random.Random(ctx.seed * 7919 + 100), "C08")
     specs += wspecs
     tr, episodes, fails = sc.run_and_validate(specs)
+    # the repository's own suite: the scans it makes of its resource projects, validated by the same specification
+    str_, sepisodes, sfails, smeta = sc.validate_suite_scans()
+    fails = fails + sfails
     st = sc.stats(episodes)
     removed = sum(1 for ep in episodes for e in ep if e["k"] == "scan" and e["excl"]["kind"] != "none"
                   and len(e["modules"]) < len(ep[1]["modules"]))
     if not st["law_instances"].get("excl") or not removed:
         raise tlc.MachineryError(f"vacuous run: {st}")
-    cov = {"real_source_trees": wtrees, "states": mc.distinct + g.distinct + tr.states, "transitions": mc.generated + g.generated + tr.transitions,
+    cov = {"real_source_trees": wtrees, "repository_suite_scans_validated": smeta.get("scans", 0), "repository_suite_scans_skipped": smeta.get("skipped", {}), "states": mc.distinct + g.distinct + tr.states, "transitions": mc.generated + g.generated + tr.transitions,
            "model_states": mc.distinct + g.distinct, "traces_validated_against_impl": len(episodes),
            "trace_events": tr.events, "glob_patterns_exhaustive": npat, "glob_pattern_subject_pairs": pairs,
            "glob_alphabet": alphabet, "glob_max_pattern_len": maxp, "glob_max_subject_len": maxs,
